@@ -360,7 +360,7 @@ fn sweep_item(c: &Ctx, cfg: &SweepCfg, start: &Instant, stop: &AtomicBool) -> It
                     r.distinct = seen.len() as u64;
                     return r;
                 }
-                if r.sample.is_none() && c.do_put && f.writable && !vals.is_empty() {
+                if r.sample.is_none() && c.do_put && f.writable && !vals.is_empty() && i > n_states / 2 {
                     let v = vals[vals.len() / 2];
                     r.sample = Some(serde_json::json!({
                         "decl": format!("{} {{ {} }}", ms.head, f.text),
